@@ -69,6 +69,9 @@ def enabled_ops(scfg, maxk: int):
             if len(S) >= 2:
                 ops.append(("insert_block", "tail", P, tuple(reversed(S))))
                 ops.append(("insert_control", P, tuple(reversed(S))))
+            if len(S) == 3:
+                for perm in ((S[1], S[2], S[0]), (S[2], S[0], S[1]), (S[0], S[2], S[1]), (S[1], S[0], S[2])):
+                    ops.append(("insert_block", "tail", P, perm))
             if len(S) < maxk:
                 for e in keys:
                     if e not in S and not any(e in G[p] for p in P):
@@ -391,6 +394,8 @@ def run(tier: str, seed: int):
     # pipeline, inside the domain of the edit primitives)
     for g in WIDE:
         units.append((g, False, 1 if tier == "quick" else 2, 3))
+        # fully restructured: a head REGION whose exiting block has three targets; S is also offered in other orders
+        units.append((g, 2, 1, 3))
     # loops whose single latch has two exits: after loop restructuring the loop REGION has two outgoing targets
     for g in WIDE_LOOPS:
         units.append((g, True, 1 if tier == "quick" else 2, 3))
